@@ -588,8 +588,10 @@ impl Part for C16 {
                     if comp[i].1 > 0 || single[i].1 > 0 {
                         out.fail(format!("{}: {} dropped with non-zero bytes left", fname, names[i]));
                     }
-                    if single[i].0 < comp[i].0 {
-                        out.fail(format!("{}: {} {} wipe(s) recorded, but setup + one operation + drop of the context records {}: a secret of the single-shot path is never wiped", fname, single[i].0, names[i], comp[i].0));
+                    // a single-shot call cannot do without the KEM shared secret, the AEAD key and the nonce, so each of them
+                    // must have been wiped at least once; it may legitimately never materialise an exporter secret
+                    if i != 2 && single[i].0 < 1 {
+                        out.fail(format!("{}: no {} wipe recorded (setup + one operation + drop of the context records {}): a secret of the single-shot path is never wiped", fname, names[i], comp[i].0));
                     }
                 }
             }
